@@ -149,7 +149,8 @@ Section Envelope.
     | (j, b) :: r => if j =? i then Some b else lookup r i
     end.
 
-  (* get_file / read_encrypted_full as in the unchanged tree: no comparison of id and content *)
+  (* get_file / read_encrypted_full without id verification (the tree before the repair; still the
+     behaviour of a DecryptBackend whose verify_id is off, and of the config file read) *)
   Definition read_encrypted_full (k : key) (s : store) (i : fid) : res bytes :=
     match lookup s i with
     | None => Err ENotFound
@@ -163,6 +164,12 @@ Section Envelope.
     | None => Err ENotFound
     | Some d => if hash d =? i then decrypt_file k d else Err EIdMismatch
     end.
+
+  (* DecryptBackend::read_encrypted_full as it is now: `verify_id` (switched on by
+     Repository::open_raw) and `tpe != FileType::Config` select the id-checking read *)
+  Definition read_repo_file (verify_id is_config : bool) (k : key) (s : store) (i : fid) : res bytes :=
+    if verify_id && negb is_config then read_encrypted_full_checked k s i
+    else read_encrypted_full k s i.
 
   (* hash_write_full: id = hash of the stored (encrypted) bytes *)
   Definition hash_write_full (zstd : option Z) (k : key) (nonce data : bytes) (s : store) : fid * store :=
